@@ -108,6 +108,10 @@ func serializesAsNull(v reflect.Value) bool {
 		if v.Type() == reflect.TypeOf(TrRaw{}) {
 			return v.Field(0).IsNil()
 		}
+		// ... and struct{V interface{}} <-> interface{} (kind 9): null when its content is
+		if v.Type() == reflect.TypeOf(TrAny{}) {
+			return serializesAsNull(v.Field(0))
+		}
 	}
 	return false
 }
